@@ -13,6 +13,10 @@
 //	c10 ext   extreme circuits (ext.go): AND depth, level width, outputs and
 //	          input widths across 2^8 and 2^16; level oracle on the real
 //	          AssignLevels output; `lvl` op lines
+//	c10 repr  input representations (repr.go): sessions, histories and
+//	          wide-input circuits whose inputs are IOArg.Parse texts / direct
+//	          *big.Int values of any sign and magnitude; `runi` / `histi` /
+//	          `lvli` op lines carry the signed decimals
 //	c10 pool  Triples.Append / TriplePool.Get op sequences (with arrivals
 //	          racing a blocked Get) and the bit-vector leaf functions
 //	c10 tb    tripleBatch at n parties over in-memory connections with
@@ -38,7 +42,7 @@ import (
 
 func main() {
 	if len(os.Args) < 2 {
-		fmt.Fprintln(os.Stderr, "usage: c10 sess|hist|ext|pool|tb ...")
+		fmt.Fprintln(os.Stderr, "usage: c10 sess|hist|ext|repr|pool|tb ...")
 		os.Exit(2)
 	}
 	// the gmw package prints progress lines on stdout
@@ -56,6 +60,8 @@ func main() {
 		poolMode(os.Args[2:])
 	case "tb":
 		tbMode(os.Args[2:])
+	case "repr":
+		reprMode(os.Args[2:])
 	default:
 		fmt.Fprintln(os.Stderr, "unknown mode")
 		os.Exit(2)
@@ -272,6 +278,9 @@ func failBase(cf *hxlib.CommonFlags, cfg *sessCfg) map[string]any {
 	} else {
 		d["circuit"] = clip(hxlib.CircLine(cfg.pc.circ), 3000)
 	}
+	if cfg.repr != nil {
+		d["inputs"] = reprDetail(cfg.pc.circ, cfg.repr)
+	}
 	return d
 }
 
@@ -365,7 +374,7 @@ func evaluate(o *hxlib.Out, cf *hxlib.CommonFlags, cfg *sessCfg, so *sessOut) {
 		}
 	}
 	// (1) every party's result equals Circuit.Compute on all inputs
-	want, err := c.Compute(cfg.inputs)
+	want, err := c.Compute(computeInputs(cfg.inputs, cfg.repr))
 	if err != nil {
 		o.Fail("c10-compute-error", with(base, "err", err.Error()))
 		return
@@ -563,6 +572,11 @@ func runOp(cfg *sessCfg, so *sessOut, need int) string {
 			continue
 		}
 		pools = append(pools, wordsHex(s.A, k)+":"+wordsHex(s.B, k)+":"+wordsHex(s.C, k))
+	}
+	if cfg.repr != nil {
+		// integer inputs: per party `<width>:<signed decimal>;...` (Model/GmwInt.lean)
+		return fmt.Sprintf("c10 runi %s %s %s %s %s", strings.Join(sizes, ","), hxlib.CircLine(c),
+			reprSpecs(cfg.repr), strings.Join(rnd, ","), strings.Join(pools, ","))
 	}
 	return fmt.Sprintf("c10 run %s %s %s %s %s", strings.Join(sizes, ","), hxlib.CircLine(c),
 		strings.Join(xs, ","), strings.Join(rnd, ","), strings.Join(pools, ","))
